@@ -62,11 +62,11 @@ Definition panic_allow : list allow := [
   mkAllow (mkSite "api/resource" "(*Factory).makeOne" SkFatal 0)
     (Unreachable "callers pass yaml.FromMap's result after its error check, nodes that survived DropLocalNodes/dropBadNodes (IsNilOrEmpty filtered), or generators.MakeConfigMap/MakeSecret results after their error check: never nil");
   mkAllow (mkSite "api/resource" "(*Resource).appendCsvAnnotation" SkPanic 0)
-    (Unreachable "since fix C12d resource.Factory.dropBadNodes rejects a resource or patch whose metadata.labels / metadata.annotations is not a mapping with scalar keys (every occurrence of the key), so SetAnnotation(s) on a loaded resource cannot fail; witnesses n5/n7/n8 are regression inputs");
+    (KnownFinding "panic:api/resource.(*Resource).appendCsvAnnotation:explicit-wrong-node-kind");
   mkAllow (mkSite "api/resource" "(*Resource).RemoveBuildAnnotations" SkPanic 0)
-    (Unreachable "since fix C12d resource.Factory.dropBadNodes rejects a resource or patch whose metadata.labels / metadata.annotations is not a mapping with scalar keys (every occurrence of the key), so SetAnnotation(s) on a loaded resource cannot fail; witnesses n5/n7/n8 are regression inputs");
+    (KnownFinding "panic:api/resource.(*Resource).RemoveBuildAnnotations:explicit-wrong-node-kind");
   mkAllow (mkSite "api/resource" "(*Resource).enable" SkPanic 0)
-    (Unreachable "since fix C12d resource.Factory.dropBadNodes rejects a resource or patch whose metadata.labels / metadata.annotations is not a mapping with scalar keys (every occurrence of the key), so SetAnnotation(s) on a loaded resource cannot fail; witnesses n5/n7/n8 are regression inputs");
+    (KnownFinding "panic:api/resource.(*Resource).enable:explicit-wrong-node-kind");
   mkAllow (mkSite "api/resource" "(*Resource).MustYaml" SkFatal 0)
     (KnownFinding "exit:log.Fatal:api/resource.(*Resource).MustYaml<-api/filters/nameref.Filter.failureDetails");
   mkAllow (mkSite "api/resource" "(*Resource).SetBehavior" SkPanic 0)
@@ -94,7 +94,7 @@ Definition panic_allow : list allow := [
     (Unreachable "on-disk only: filepath.Join(Dir p, Base p) = p for a cleaned absolute p");
   (* ---- kyaml/openapi ---- *)
   mkAllow (mkSite "kyaml/openapi" "initSchema" SkPanic 0)
-    (Unreachable "since fix C12e SetSchema decodes a custom schema with the same code before accepting it (error return), so parse(customSchema) in initSchema cannot fail on decoding; witness n9 is a regression input");
+    (KnownFinding "panic:kyaml/openapi.initSchema:explicit-invalid-schema-file");
   mkAllow (mkSite "kyaml/openapi" "initSchema" SkPanic 1)
     (InitOnly "parses the compiled-in kustomization API asset");
   mkAllow (mkSite "kyaml/openapi" "initSchema" SkMustCall 0)
